@@ -6,6 +6,7 @@ Quantifiers: ALL rational points / factors; polygons are ALL lists of two-point 
 (`isPolygon`), closed polygons are `Jordan.fromVertices vs` for ALL vertex lists.
 -/
 import ShapeVerif.Proofs.Geom
+import ShapeVerif.Gen.Tables
 
 namespace ShapeVerif.C12
 open ShapeVerif ShapeVerif.Geom
@@ -166,5 +167,16 @@ example : Jordan.area (Jordan.fromVertices [⟨0,0⟩, ⟨4,0⟩, ⟨0,3⟩]) = 
 example : Jordan.area (Jordan.fromVertices (([⟨0,0⟩, ⟨4,0⟩, ⟨0,3⟩] : List Pt).map (·.rot (3/5) (4/5)))) = 6 := by decide +kernel
 example : linesInter ((⟨0,0⟩ : Pt).scale 3 (1/2)) ((⟨2,0⟩ : Pt).scale 3 (1/2)) ((⟨1,-1⟩ : Pt).scale 3 (1/2))
     ((⟨1,1⟩ : Pt).scale 3 (1/2)) = some (1/2, 1/2) := by decide +kernel
+
+
+/-! ### the tolerances of the source are ABSOLUTE constants (regenerated from the source on every run) -/
+
+/-- every tolerance literal the properties mention is the absolute constant of the model: point equality 1e-9, box margins 1e-6,
+split end filter 1e-6, on-curve distance 1e-6, degree-reduction error 1e-9.  None of them scales with the drawing: this is the
+mechanism behind findings K1 and K6 (DESIGN §14.6). -/
+theorem tolerances_are_absolute_constants :
+    Gen.pointEqTol = some tol9 ∧ Gen.pointEqTolMin = some tol9 ∧ Gen.boxDx = some tol6 ∧ Gen.boxDy = some tol6 ∧
+    Gen.splitEndTol = some tol6 ∧ Gen.splitEndTolMin = some tol6 ∧ Gen.onCurveTol = some tol6 ∧ Gen.cleanTol = some tol9 :=
+  ⟨rfl, rfl, rfl, rfl, rfl, rfl, rfl, rfl⟩
 
 end ShapeVerif.C12
